@@ -326,6 +326,13 @@ impl ServerState {
     /// this process until `is_compiling` becomes false.
     pub async fn wait_for_parsing(&self) {
         loop {
+            // Create the `Notified` future *before* looking at the flags: `notify_waiters` stores no
+            // permit, so a notification sent between the checks below and a later call to
+            // `notified()` would be lost and this function would wait forever.
+            let notified = self.finished_compilation.notified();
+            tokio::pin!(notified);
+            notified.as_mut().enable();
+
             // Check both the is_compiling flag and the last_compilation_state.
             // Wait if is_compiling is true or if the last_compilation_state is Uninitialized.
             #[cfg(fuellabs_sway_verif)]
@@ -344,7 +351,7 @@ impl ServerState {
             // We are still compiling, lets wait to be notified.
             #[cfg(fuellabs_sway_verif)]
             crate::verif::point("wait:notified", self.verif_id());
-            self.finished_compilation.notified().await;
+            notified.await;
         }
     }
 
